@@ -40,6 +40,19 @@ func mutateYAMLData(r *rand.Rand, text string) string {
 		return text
 	}
 	i := cands[r.Intn(len(cands))]
+	// half of the time a key that opens a nested block (a struct, a list of structs, a map): the shapes below then
+	// stand where an aggregate is expected
+	if r.Intn(2) == 0 {
+		var blocks []int
+		for _, c := range cands {
+			if strings.HasSuffix(strings.TrimRight(lines[c], " "), ":") {
+				blocks = append(blocks, c)
+			}
+		}
+		if len(blocks) > 0 {
+			i = blocks[r.Intn(len(blocks))]
+		}
+	}
 	l := lines[i]
 	indent := len(l) - len(strings.TrimLeft(l, " "))
 	key := l[:strings.Index(l, ":")+1]
@@ -55,7 +68,11 @@ func mutateYAMLData(r *rand.Rand, text string) string {
 		break
 	}
 	out := append([]string{}, lines[:i]...)
-	out = append(out, key+" "+yamlJunk[r.Intn(len(yamlJunk))])
+	junk := yamlJunk[r.Intn(len(yamlJunk))]
+	if r.Intn(3) == 0 {
+		junk = []string{"[]", "{}", "null", "~", `""`}[r.Intn(5)] // the empty shapes, more often
+	}
+	out = append(out, key+" "+junk)
 	out = append(out, lines[j:]...)
 	return strings.Join(out, "\n")
 }
